@@ -7,6 +7,8 @@ import ObiVerif.Lemmas.Fasta
 import ObiVerif.Lemmas.Reseq
 import ObiVerif.Lemmas.Splitters
 import ObiVerif.Lemmas.FastaGrammar
+import ObiVerif.Lemmas.Embl
+import ObiVerif.Lemmas.FlatSplit
 /-!
 # C01 — parsed records do not depend on chunk boundaries, transport or parser workers
 
@@ -210,8 +212,25 @@ theorem splitFastq_line_start (buf : Seq) (h : 0 ≤ splitFastq buf) :
     rw [this] at he
     exact he
 
-/-- `EndOfLastFlatFileEntry` returns −1 or a position in `[1, len]` -/
-theorem splitFlat_contract : SplitterOK splitFlat (fun _ _ => True) := splitFlat_ok
+/-- `EndOfLastFlatFileEntry` returns −1 or a position in `[1, len]` that follows an end-of-record line -/
+theorem splitFlat_contract : SplitterOK splitFlat FlatCut := splitFlat_ok_cut
+
+/-- **splitFlat_spec**: the bytes before a non-negative result end with `\n//\n` or `\n//\r\n` -/
+theorem splitFlat_spec (buf : Seq) (h : 0 ≤ splitFlat buf) : FlatEnd (buf.take (splitFlat buf).toNat) :=
+  splitFlat_cut buf h
+
+/-- **parseEmbl_append** (EMBL record locality, repaired parser): if `a` ends with an end-of-record
+line, the records of `a ++ b` parsed as one chunk are the records of `a` followed by the records of
+`b`, for every `b` (no record inherits `taxid`, `scientific_name`, `id`, definition, features or
+sequence bytes from the previous one).  `EmblChunkParser` has no error path. -/
+theorem parseEmbl_append (withFeat : Bool) (a b : Seq) (h : FlatEnd a) :
+    parseEmbl withFeat (a ++ b) = .ok (emblRecs withFeat a ++ emblRecs withFeat b) ∧
+    parseEmbl withFeat a = .ok (emblRecs withFeat a) ∧ parseEmbl withFeat b = .ok (emblRecs withFeat b) := by
+  refine ⟨?_, rfl, rfl⟩
+  rw [parseEmbl_eq, emblRecs_append withFeat h b]
+
+/-- non-vacuity: `ID   A;␊//␊` ends with an end-of-record line -/
+example : FlatEnd [73, 68, 32, 32, 32, 65, 59, 10, 47, 47, 10] := ⟨[73, 68, 32, 32, 32, 65, 59], Or.inl rfl⟩
 
 /-- hence, for the four formats: whatever the buffer size ≥ 2, the chunk reader terminates and its
 chunks, in order, are the file minus runs of end-of-line bytes; no chunk is empty -/
@@ -225,8 +244,8 @@ theorem chunks_all_formats (b : Nat) (hb : 2 ≤ b) (file : Seq) :
     exact ⟨cs, h, chunks_reassemble _ _ splitFasta_ok b file cs h⟩
   · obtain ⟨cs, h⟩ := chunks_terminate _ _ splitFastq_ok b hb file
     exact ⟨cs, h, chunks_reassemble _ _ splitFastq_ok b file cs h⟩
-  · obtain ⟨cs, h⟩ := chunks_terminate _ _ splitFlat_ok b hb file
-    exact ⟨cs, h, chunks_reassemble _ _ splitFlat_ok b file cs h⟩
+  · obtain ⟨cs, h⟩ := chunks_terminate _ _ splitFlat_ok_cut b hb file
+    exact ⟨cs, h, chunks_reassemble _ _ splitFlat_ok_cut b file cs h⟩
 
 /-- (tests on samples) `@a␊AC␊+␊@I␊@b␊GG␊+␊II`: the `@` of the quality line (offset 8) is not a cut, the
 record start at offset 11 is; GenBank-like text: the cut follows `␊//␊` -/
@@ -241,10 +260,12 @@ start): the pattern "line starting with `@`, line over the sequence alphabet, li
 cannot begin on a sequence line (state 5: the next line would have to start with `+`) nor on a quality
 line (state 9: the next line would have to start with `@`).  With it, `parseFastq_append` and
 `reader_independent` for FASTQ follow as in section 3.
-GenBank / EMBL — `splitFlat` cuts after a `//` line; `parseEmbl (a ++ b) = parseEmbl a ++ parseEmbl b`
-when `a` ends with `\n//\n` or `\n//\r\n` because `emLine` returns the initial state at `//` (after the
-repair `C01-flatfile-record-state-reset`; false before it: witness two records, the second without
-`/db_xref="taxon:`), and likewise for GenBank up to the dead fields `id`/`seqB` in state `inHeader`. -/
+GenBank / EMBL — proved above: `splitFlat` cuts after a `//` line (`splitFlat_spec`) and EMBL record
+locality (`parseEmbl_append`; false before the repair `C01-flatfile-record-state-reset`: witness two
+records, the second without `/db_xref="taxon:`).  Not proved: the composition `reader_independent` for
+EMBL (needs: stripping the trailing LF / CR LF of a chunk does not change its lines — false for stray
+CR runs such as `//\r\r\n`, so the statement needs a regular-line-end hypothesis), and GenBank locality
+(the same argument up to the dead fields `id`/`seqB` in state `inHeader` and the fatal paths). -/
 
 /-- non-vacuity: the two-record file `>a x>y␍␊AC␍␊GT␍␊>b␊TT␊` (folded sequence, CR LF, a title containing `>`) -/
 def exFile : Seq := [62, 97, 32, 120, 62, 121, 13, 10, 65, 67, 13, 10, 71, 84, 13, 10, 62, 98, 10, 84, 84, 10]
